@@ -23,6 +23,7 @@ EXPLANATION = (
     "call hands down a parent span; (R4) the node span id is published to the executor closure with no suspension point in between, in both runners; "
     "(R5) nothing observable happens before input validation; (R6) a step's gather waits for all siblings. R5 also requires that every option check run() applies up front to a parameter map() forwards unchanged is applied by map() itself before the map-level span is opened; R6 extends to every gather of the runners: it collects exceptions, or no explicit raise escapes from the gathered coroutines (followed into sibling closures)."
     " R2 also requires that every builder of a RunEnd event decides the status by the presence of the handed-in exception (the parameter itself, or 'is None' tests on it, looked through single-assignment locals) — not by its message or anything else derived from it."
+    " R1 also requires that span ids are not drawn from the process-global random generator."
 )
 NOT_DECIDED = "Timestamps and payload fields of events beyond span ids/status; that processors see events in wall-clock order across concurrently running siblings; paused runs (emit no RunEnd by design)."
 
